@@ -287,7 +287,54 @@ def rule_l4(ctx):
                       "[+]?0*<digits> for v >= 0, -0*<digits> for v < 0")
 
 
+HELPERS_ = "src/isla/helpers.py"
+
+
+def rule_l5(ctx):
+    """Helpers the tree builders rest on: (a) nullable nonterminals = least fixed point (iterate until nothing changes); (b) 'terminal expansion' = exactly one
+    terminal symbol (the empty expansion is NOT one: the search must be able to choose between nothing and a terminal); (c) reachability answers are not cached
+    across grammars."""
+    from ..memo import check_cached_grammar_projection
+
+    f = ctx.repo.func(HELPERS_, "compute_nullable_nonterminals", "C14.L5")
+    c = f"{HELPERS_}:compute_nullable_nonterminals"
+    t = " ".join(src(f).split())
+    fix = "changed = True while changed: changed = False" in t and "all((elem in result for elem in expansion))" in t and "result.add(nonterminal)" in t and "any((not expansion for expansion in canonical_grammar[nonterminal]))" in t
+    if fix:
+        ctx.ok("L5-nullable-fixpoint", c, "least fixed point from the epsilon alternatives", site(f), "iterate until unchanged")
+    else:
+        memo_rec = any(isinstance(n, ast.FunctionDef) and any(isinstance(x, ast.Call) and call_name(x) == n.name for x in ast.walk(n)) for n in ast.walk(f) if n is not f)
+        if memo_rec and "in_progress" in t:
+            ctx.viol("L5-nullable-fixpoint", c, "least fixed point from the epsilon alternatives", site(f),
+                     "nullability is computed by a memoised recursion that answers 'not nullable' for a nonterminal in progress and stores results obtained under that assumption: for mutually "
+                     "recursive nullable nonterminals (<parts> ::= <part><parts> | \"\", <part> ::= <section>, <section> ::= <title><parts>) some are wrongly non-nullable and "
+                     "create_fixed_length_tree prunes feasible lengths")
+        else:
+            raise Unrecognised("C14.L5", c, "computation of the nullable nonterminals is not the recognised fixed-point iteration")
+    g = ctx.repo.func(HELPERS_, "get_expansions", "C14.L5")
+    c2 = f"{HELPERS_}:get_expansions"
+    te = [a for a in walk_local(g) if isinstance(a, ast.Assign) and src(a.targets[0]) == "terminal_expansions" and isinstance(a.value, ast.ListComp)]
+    if len(te) != 1:
+        raise Unrecognised("C14.L5", c2, "terminal_expansions not found")
+    cond = " and ".join(" ".join(src(i).split()) for i in te[0].value.generators[0].ifs)
+    if cond == "len(expansion) == 1 and (not is_nonterminal(expansion[0]))" or cond == "len(expansion) == 1 and not is_nonterminal(expansion[0])":
+        ctx.ok("L5-terminal-expansions", c2, "terminal expansion = exactly one terminal symbol", site(te[0]), cond)
+    elif "len(expansion)" not in cond and "not any(" in cond:
+        ctx.viol("L5-terminal-expansions", c2, "terminal expansion = exactly one terminal symbol", site(te[0]),
+                 f"`{cond}` also classifies the EMPTY expansion as a terminal expansion: create_fixed_length_tree keeps one random member of that group per leaf, so for "
+                 "<sign> ::= \"\" | \"+\" | \"-\" it can no longer choose between nothing and a sign and returns None for feasible lengths")
+    else:
+        raise Unrecognised("C14.L5", c2, f"classification `{cond}` not understood")
+    n = check_cached_grammar_projection(ctx, "L5-reachability-cache", [PRED, HELPERS_, SOLVER])
+    ctx.inventory["cached_helper_calls_from_grammar_functions"] = n
+    r = ctx.repo.func(PRED, "reachable", "C14.L5")
+    tt = " ".join(src(r).split())
+    if "return graph.reachable(f_node, t_node)" in tt:
+        ctx.ok("L5-reachability-cache", f"{PRED}:reachable", "reachability asked of the graph itself", site(r), "graph.reachable(f_node, t_node)")
+
+
 def run(ctx) -> str:
+    ctx.guarded("L5", lambda: rule_l5(ctx))
     ctx.guarded("L4", lambda: rule_l4(ctx))
     ctx.guarded("L1", lambda: rule_l1(ctx))
     ctx.guarded("L2", lambda: rule_l2(ctx))
